@@ -69,6 +69,17 @@ theorem flushRender_cases (beh : Id → Rect → List DrawOp) (st st' : St) (t :
         subst h1 h2
         exact Or.inr ⟨root, s', hr.1, hr.2, rfl, he, rfl, rfl, rfl⟩
 
+/-- Every handler finds a buffer whose masks were made at levels not above the current one: a `restore` that closes a
+    level the handler opened itself leaves them alone. -/
+theorem flushRender_shots_masksLe (beh : Id → Rect → List DrawOp) (st st' : St) (t : Tree) (shots : List Shot)
+    (h : flushRender beh st t = .ok (st', shots)) : ∀ sh ∈ shots, MasksLe sh.rb := by
+  rcases flushRender_cases beh st st' t shots h with ⟨h1, _, _, _⟩ | ⟨root, s', _, _, _, he, hs, _, _⟩
+  · subst h1; intro sh hsh; cases hsh
+  · subst hs
+    have hok := exposeRects_ok (rendered t) beh st.pens (fun _ _ _ => Cell.never) (t.wins.size + 1)
+      ⟨0, 0, root.rect.lines, root.rect.cols⟩ _ _ s' he (neutral_new _ _) rfl
+    exact hok.shotsMasks (fun sh hsh => by cases hsh)
+
 theorem flushRender_inB (beh : Id → Rect → List DrawOp) (st st' : St) (t : Tree) (shots : List Shot)
     (h : flushRender beh st t = .ok (st', shots)) :
     ∀ sh ∈ shots, InB st'.tree sh.win sh.rect := by
